@@ -7,7 +7,8 @@ import (
 	"encoding/hex"
 	"encoding/json"
 	"regexp"
-
+	"sync"
+	"sync/atomic"
 	"testing"
 
 	"github.com/fabiolb/fabio/internal/verifx"
@@ -101,6 +102,36 @@ func TestVerifC20UUID(t *testing.T) {
 		c20uCheck(u, "")
 		ran++
 	}
+	// concurrent calls (UuidConc.tla, Correct): every call returns the rendering of ITS argument.
+	// Each goroutine formats arguments made of its own byte so that foreign digits are visible.
+	nconc := verifx.EnvInt("VERIF_C20_UUID_CONC", 200000)
+	const workers = 16
+	var wg sync.WaitGroup
+	var cran, cbad int64
+	for w := 0; w < workers; w++ {
+		wg.Add(1)
+		go func(w int) {
+			defer wg.Done()
+			var u [24]byte
+			for i := 0; i < nconc/workers; i++ {
+				for k := range u {
+					u[k] = byte(w*16 + w) // 0x00, 0x11, ... 0xff
+				}
+				u[i%16] = byte(i)
+				var got string
+				p, _ := verifx.Safely(func() { got = ToString(u) })
+				atomic.AddInt64(&cran, 1)
+				if want := c20uStd(u); p != nil || got != want {
+					if atomic.AddInt64(&cbad, 1) <= 3 {
+						verifx.Fail(c20uCase{Kind: "concurrent"}, map[string]any{"sub": "uuid", "clause": "concurrent-call", "pos": -1},
+							"uuid.ToString(% x) called from %d goroutines at once returned %q (panic %v), its argument renders as %q", u[:16], workers, got, p, want)
+					}
+				}
+			}
+		}(w)
+	}
+	wg.Wait()
+	ran += int(cran)
 	// the generator in use produces strings of the same layout
 	re := regexp.MustCompile(`^[0-9a-f]{8}-[0-9a-f]{4}-[0-9a-f]{4}-[0-9a-f]{4}-[0-9a-f]{12}$`)
 	for i := 0; i < 1000; i++ {
@@ -112,5 +143,5 @@ func TestVerifC20UUID(t *testing.T) {
 		}
 		ran++
 	}
-	verifx.Summary(map[string]any{"spec_cases": nspec, "ran": ran})
+	verifx.Summary(map[string]any{"spec_cases": nspec, "ran": ran, "concurrent": cran, "concurrent_bad": cbad})
 }
